@@ -268,6 +268,13 @@ func execOp(p *prog, t []string) (outcome string, res []string) {
 		res = append(res, strconv.FormatUint(u, 10), strconv.Itoa(int(a)))
 	case "Int":
 		i, a := v(t[1]).Int(nil)
+		// the documented out-parameter form must give the same answer whatever the argument held before
+		for _, dirty := range dirtyInts() {
+			j, b := v(t[1]).Int(dirty)
+			if (i == nil) != (j == nil) || a != b || (i != nil && (i.Cmp(j) != 0 || j != dirty)) {
+				panic("Int(reused big.Int) differs from Int(nil)")
+			}
+		}
 		if i == nil {
 			res = append(res, "0", "0", strconv.Itoa(int(a)))
 		} else {
@@ -275,6 +282,12 @@ func execOp(p *prog, t []string) (outcome string, res []string) {
 		}
 	case "Rat":
 		r, a := v(t[1]).Rat(nil)
+		for _, dirty := range dirtyRats() {
+			q, b := v(t[1]).Rat(dirty)
+			if (r == nil) != (q == nil) || a != b || (r != nil && (r.Cmp(q) != 0 || q != dirty || r.Denom().Cmp(q.Denom()) != 0)) {
+				panic("Rat(reused big.Rat) differs from Rat(nil)")
+			}
+		}
 		if r == nil {
 			res = append(res, "0", "0", "1", strconv.Itoa(int(a)))
 		} else {
@@ -469,4 +482,16 @@ func main() {
 		}
 		processLine(line, w)
 	}
+}
+
+// previously used out-parameters for Int / Rat
+func dirtyInts() []*big.Int {
+	a, _ := new(big.Int).SetString("-123456789012345678901234567890123456789012345678901234567890123456789", 10)
+	return []*big.Int{a, big.NewInt(-7), new(big.Int)}
+}
+
+func dirtyRats() []*big.Rat {
+	n, _ := new(big.Int).SetString("123456789012345678901234567890123456789012345678901", 10)
+	d, _ := new(big.Int).SetString("-98765432109876543210987654321098765432109876543", 10)
+	return []*big.Rat{big.NewRat(-22, 7), new(big.Rat).SetFrac(n, d), big.NewRat(5, 4), new(big.Rat)}
 }
